@@ -303,4 +303,34 @@ VARIANTS = [
      "expect": "silent",
      "old": 'return f"{self.name} {self.type} {self.rw} {self.sendto} {self.value}"',
      "new": 'return f"{self.name}\\t{self.type}\\t{self.rw}\\t{self.sendto}\\t{self.value}"'},
+
+    # ---------------------------------------------------------------- round 6: cache behind a forwarding property
+    {"name": "P R5 cache dict renamed, old name kept as a forwarding property", "expect": "silent",
+     "edits": [{"file": MSG, "old": "'message_name', '_ser_cache', 'fill_missing',", "new": "'message_name', '_decoded', 'fill_missing',"},
+               {"file": MSG, "old": "        self._ser_cache: Dict[str, Any] = {}\n", "new": "        self._decoded: Dict[str, Any] = {}\n"},
+               {"file": MSG, "old": "    def get(self, var_name, default: Optional[VAR_TYPE] = None)",
+                "new": "    @property\n    def _ser_cache(self):\n        return self._decoded\n\n"
+                       "    def get(self, var_name, default: Optional[VAR_TYPE] = None)"}]},
+    {"name": "R5 cache behind a forwarding property and no longer dropped on raw stores", "expect": "C09.R5",
+     "edits": [{"file": MSG, "old": "'message_name', '_ser_cache', 'fill_missing',", "new": "'message_name', '_decoded', 'fill_missing',"},
+               {"file": MSG, "old": "        self._ser_cache: Dict[str, Any] = {}\n", "new": "        self._decoded: Dict[str, Any] = {}\n"},
+               {"file": MSG, "old": "    def get(self, var_name, default: Optional[VAR_TYPE] = None)",
+                "new": "    @property\n    def _ser_cache(self):\n        return self._decoded\n\n"
+                       "    def get(self, var_name, default: Optional[VAR_TYPE] = None)"},
+               {"file": MSG, "old": _SETITEM_POP, "new": ""}]},
+
+    # ---------------------------------------------------------------- round 6: memo published before it is complete
+    {"name": "R8 size memo reset to a placeholder before the walk", "file": SER, "expect": "C09.R8",
+     "old": "        sum_bytes = 0\n        for _, field_type in self._template_spec.items():\n",
+     "new": "        self._size = None\n        sum_bytes = 0\n        for _, field_type in self._template_spec.items():\n"},
+    {"name": "P R8 size memo computed by a helper and stored once", "file": SER, "expect": "silent",
+     "old": "        sum_bytes = 0\n        for _, field_type in self._template_spec.items():\n"
+            "            size = field_type.calc_size()\n            if size is None:\n"
+            "                sum_bytes = None\n                break\n            sum_bytes += size\n"
+            "        self._size = sum_bytes\n        return self._size\n",
+     "new": "        self._size = self._walk_sizes()\n        return self._size\n\n"
+            "    def _walk_sizes(self):\n        total = 0\n"
+            "        for field_type in self._template_spec.values():\n"
+            "            size = field_type.calc_size()\n            if size is None:\n"
+            "                return None\n            total += size\n        return total\n"},
 ]
